@@ -176,6 +176,13 @@ def run(chk, ctx) -> None:
     chk.ob('C16.verbs', 'args:sm', sm == want_sm, pa.loc, '`sm` alone is a muck, `sm -` shows everything, `sm <cards>` shows those cards',
            got={' '.join(k): [T.show(x) for x in v] for k, v in sm.items()})
 
+    # commentary: written as `<action> # <text>` (or `# <text>` alone) and read back as the raw text after `# `
+    rd = ctx.m.assigns(pa.node, "action[action.index('#') + 2:] if '#' in action else None")
+    wr = [n for n in ast.walk(fgs.node) if isinstance(n, ast.JoinedStr) and [v.value for v in n.values if isinstance(v, ast.Constant)] in ([' # '], ['# '])
+          and any(isinstance(v, ast.FormattedValue) and 'commentary' in ast.unparse(v.value) for v in n.values)]
+    chk.ob('C16.commentary', 'parse_action~from_game_state', len(rd) == 1 and len(wr) == 2, pa.loc,
+           'a commentary is written verbatim after `# ` and read back as the raw remainder of the line (no re-tokenising: inner spacing is text)',
+           got=f'reader takes the raw slice: {len(rd) == 1}; writer forms found: {len(wr)}')
     _fields(chk, ctx, hh, fgs)
     _replay(chk, ctx, hh)
     _dump(chk, ctx, hh)
